@@ -122,6 +122,11 @@ def run(rep, tier, driver):
     outs = pmap(_job, [(s, q) for s, q, _ in cases], chunk=1)
     allnames = sorted({nd.name for _, _, t in cases for nd in t.nodes()} | {q for _, qs, _ in cases for q, _ in qs if "(" not in q})
     CODES.update({k: v for k, v in zip(allnames, pmap(_code_job, allnames, chunk=16)) if v})
+    # the Model of summary()["leaves"] (Plan.outLeaves on the Model front-end's tree; C16_leaves): node ids without outgoing edge
+    fronts = {}
+    if driver is not None:
+        strs = [s for s, _, _ in cases]
+        fronts = dict(zip(strs, driver.ask_many({"op": "front", "s": s} for s in strs)))
     for (s, queries, t), o in zip(cases, outs):
         res = o["result"]
         if o["exc"] or res is None:
@@ -146,6 +151,12 @@ def run(rep, tier, driver):
         for k, v in want.items():
             if got.get(k) != v:
                 rep.violation("input", {"iupac": s, "query": "summary." + k}, {k: got.get(k)}, {k: v}, key="summary:%s:%s" % (k, s))
+        fr = fronts.get(s)
+        if fr and fr.get("verdict") == "ok" and isinstance(tree, list) and len(tree[0]) == len(fr["tree"]["names"]):
+            rep.count("leaves-model-compared")
+            mleaves = sorted(tree[0][i] for i in fr["tree"]["leaves"])
+            if mleaves != got["leaves"]:
+                rep.broken.append("leaves model: %r vs summary()['leaves'] %r on %r" % (mleaves, got["leaves"], s))
         if smi2 != smi or summ2 != summ:
             rep.violation("history", {"iupac": s, "what": "get_smiles/summary repeated after summary, count, save_dot"}, {"smiles": smi2}, {"smiles": smi}, key="repeat:" + s)
         # save_dot: same nodes and edges as the tree
